@@ -62,6 +62,10 @@ func genTable(t *rapid.T) script.Table {
 	tb.Q[k[3]] = script.Outcome{Stmts: []script.Stmt{goodStmt(t, "after")}}
 	tb.Q[k[4]] = script.Outcome{Err: gen.SmallErr().Draw(t, "perr")}
 	tb.Q[k[5]] = gen.Outcome(gen.SimpleTypes, 2, 4, 6).Draw(t, "outcome")
+	// a statement that runs COPY-in to the end of the stream (propagating an abort)
+	tb.Q[k[6]] = script.Outcome{Stmts: []script.Stmt{{Cols: []script.Col{{Name: "c", T: "text"}}, Ops: []script.Op{
+		{K: "copyin", Copy: &script.CopySpec{Format: int16(rapid.IntRange(0, 1).Draw(t, "copy-format")), MaxReads: -1, OnAbort: "propagate"}},
+		{K: "complete", Tag: "COPY"}}}}}
 	return tb
 }
 
@@ -225,7 +229,7 @@ func (b *builder) randomMsg() script.CMsg {
 	return script.CMsg{K: "H"}
 }
 
-var batchKinds = []string{"clean", "clean", "parse-error", "bind-unknown", "describeS-unknown", "describeP-unknown", "execute-unknown", "execute-fails-before-rows", "execute-fails-after-rows", "random", "random", "simple-query", "unknown-type", "close-then-use"}
+var batchKinds = []string{"copy-in-batch", "clean", "clean", "parse-error", "bind-unknown", "describeS-unknown", "describeP-unknown", "execute-unknown", "execute-fails-before-rows", "execute-fails-after-rows", "random", "random", "simple-query", "unknown-type", "close-then-use"}
 
 func genCase(t *rapid.T) Case {
 	c := Case{}
@@ -242,6 +246,26 @@ func genCase(t *rapid.T) Case {
 			n := rapid.IntRange(1, 3).Draw(t, "npipelines")
 			for j := 0; j < n; j++ {
 				b.pipeline(rapid.SampledFrom(k[:2]).Draw(t, "good-query"), "E")
+			}
+		case "copy-in-batch":
+			// Execute starts COPY-in; the stream ends with CopyDone (success) or is aborted by CopyFail /
+			// a foreign message (one ErrorResponse, then everything up to Sync is discarded)
+			b.pipeline(k[6], "E")
+			if b.md.InCopy() {
+				for j, n := 0, rapid.IntRange(0, 3).Draw(t, "ncopydata"); j < n; j++ {
+					b.emit(script.CMsg{K: "d", Data: []byte(rapid.StringMatching(`[a-z]{0,8}`).Draw(t, "chunk"))})
+					if rapid.IntRange(0, 3).Draw(t, "flush-in-copy") == 0 {
+						b.emit(script.CMsg{K: rapid.SampledFrom([]string{"H", "S"}).Draw(t, "hs")})
+					}
+				}
+				switch rapid.IntRange(0, 3).Draw(t, "copy-end") {
+				case 0:
+					b.emit(script.CMsg{K: "f", Data: []byte("abort")})
+				case 1:
+					b.emit(script.CMsg{K: "P", Name: "x", Query: k[0]})
+				default:
+					b.emit(script.CMsg{K: "c"})
+				}
 			}
 		case "parse-error":
 			b.pipeline(k[4], "P")
